@@ -138,14 +138,17 @@ impl Sim {
             // duplicate a tx (same nonce twice)
             let mut t = ctx.txs.clone();
             t.insert(k + 1, ctx.txs[k].clone());
-            mutants.push(with("tx_duplicated", Some(true), t, format!("tx {k}")));
+            // a transaction that fails non-fatally (IbcRelay after Blackburn) does not consume its nonce, so a block carrying it twice
+            // is not in any of the property's must-reject classes: either answer is acceptable for it
+            let nonfatal = by_bytes.get(&ctx.txs[k]).is_some_and(|b| b.intent.starts_with("relay_fails_nonfatal"));
+            mutants.push(with("tx_duplicated", if nonfatal { None } else { Some(true) }, t, format!("tx {k} nonfatal_failer={nonfatal}")));
             // drop a tx: malformed only if it carried rollup data (commitment) or a later tx of the same signer depends on its nonce
             let ki = k - first_user;
             if let Some((_, has_data, signer)) = &info[ki] {
                 let later_same_signer = info[ki + 1..].iter().flatten().any(|(_, _, s)| s == signer && s.is_some());
                 let mut t = ctx.txs.clone();
                 t.remove(k);
-                let must = if *has_data || later_same_signer { Some(true) } else { None };
+                let must = if *has_data || (later_same_signer && !nonfatal) { Some(true) } else { None };
                 mutants.push(with("tx_dropped", must, t, format!("tx {k} has_rollup_data={has_data} later_same_signer={later_same_signer}")));
             }
         }
